@@ -49,8 +49,8 @@ CLAIMS = {
     'C05': dict(level='exploration', engine='bounded+frames',
                 text=B_NOTE + 'kekule / thiele / enumerate_kekule post-conditions (same molecule, only orders 1-3, no valence error, one aromatic form for all '
                 'Kekule forms, idempotence) on 164 ring templates x substitution patterns, 17 further input classes (radicals, onium, mis-drawn rings, every '
-                'repair rule, fusion heteroatoms, ring-size boundaries ...), options (buffer_size, fix_tautomers), call sequences, corpus and repository test '
-                'files, under renumbering and re-insertion.' + F_NOTE,
+                'repair rule, fusion heteroatoms, ring-size boundaries ...), tautomers of aza-substituted peri-fused ring systems under many atom orders, options '
+                '(buffer_size, fix_tautomers), call sequences, corpus and repository test files, under renumbering and re-insertion.' + F_NOTE,
                 note='Trusted: RDKit (one-directional H/charge comparison), oracles/o05_*. Whole-algorithm relations of a backtracking search: no SMT '
                      'obligation is within reach (DESIGN 5); F covers kekule, thiele and fix_resonance as mutators. 2 known findings, 2 repaired.' + U_NOTE,
                 technique='bounded contract checking over a ring-system generator + frame analysis of the conversions as mutators'),
@@ -65,7 +65,8 @@ CLAIMS = {
     'C07': dict(level='exploration', engine='bounded+pysym+frames',
                 text=B_NOTE + 'mapping multisets against an exhaustive reference enumerator (scope, automorphism filter, operators), structural contract of '
                 '_compile_query on every small pattern, lazy_product against itertools.product. Deductive (P): <, <=, >, >=, is_substructure, is_equal are '
-                'defined from mapping existence for all size pairs.' + F_NOTE,
+                'defined from mapping existence for all size pairs; every query-atom class __eq__, QueryBond.__eq__ and Bond.__eq__ equal the documented '
+                'predicate for all attribute values (shared with C08) - the match relation that the statement and the reference enumerator use.' + F_NOTE,
                 note='Trusted: oracles/o07_ref.py (cross-checked against the brute-force enumerator every run). Completeness of the DFS matcher for all graph '
                      'pairs is not within reach of contracts here (DESIGN 5). 5 known findings, 2 repaired.' + U_NOTE,
                 technique='bounded contract checking against an exhaustive reference enumerator + symbolic operator lemmas + frame analysis'),
